@@ -17,6 +17,7 @@ OptAlpha   == << [n |-> "Host", v |-> "OPTHOST"], [n |-> "X-A", v |-> "oa"], [n 
 OptAlphaBig == OptAlpha \o << [n |-> "X-C", v |-> "oc2"] >>
 
 Both     == {TRUE, FALSE}
+NoModes  == {}
 OnlyOff  == {FALSE}
 
 \* present-but-empty entry values (the second one is a blank), names the option list also defines
